@@ -51,7 +51,7 @@ func doNext(c []byte, i int) {
 		t = vh.ResOk(vh.Z(int64(n)))
 	}
 	desc := map[string]interface{}{"fn": "next", "bytes": cfgx.Ints(c), "i": i, "out": o.String(), "n": n}
-	out.Add(fmt.Sprintf("CNext %s %d %s", vh.Bytes(c), i, t), "next", len(c) >= 2, desc)
+	out.Add(fmt.Sprintf("CNext %s %s %s", vh.Bytes(c), vh.Z(int64(i)), t), "next", len(c) >= 2, desc)
 	if o.Class != 0 && i >= 0 && i < len(c) {
 		out.Fail("next panicked at a valid offset: "+o.Msg, "panic-next-"+fmt.Sprintf("%02X", c[i]), desc)
 	}
